@@ -80,6 +80,38 @@ impl Read for SchedReader<'_> {
     }
 }
 
+/// the payload of the error a full `LimWriter` returns: "returns the writer's error" (C14) is checked by identity — the
+/// error that comes back from `serialize_into` must carry this very payload, not a look-alike of the same kind
+#[derive(Debug)]
+pub(super) struct SinkFull {
+    pub(super) at: usize,
+}
+impl std::fmt::Display for SinkFull {
+    fn fmt(&self, f: &mut std::fmt::Formatter<'_>) -> std::fmt::Result {
+        write!(f, "sink full at {}", self.at)
+    }
+}
+impl std::error::Error for SinkFull {}
+
+/// `ok` / `err` (the writer's own error: its payload in `err` mode, std's `WriteZero` in `zero` mode) / `err-foreign`
+pub(super) fn show_write_result(r: &io::Result<()>, w: &LimWriter) -> String {
+    match r {
+        Ok(()) => "ok".to_string(),
+        Err(e) => {
+            let own = if w.zero {
+                e.kind() == io::ErrorKind::WriteZero
+            } else {
+                e.get_ref().and_then(|x| x.downcast_ref::<SinkFull>()).map(|s| s.at) == Some(w.limit)
+            };
+            if own {
+                "err".to_string()
+            } else {
+                format!("err-foreign({:?})", e.kind())
+            }
+        }
+    }
+}
+
 /// a sink that accepts `limit` bytes in scheduled chunk sizes, then fails (`Err`) or returns `Ok(0)`
 pub(super) struct LimWriter {
     pub(super) acc: Vec<u8>,
@@ -104,7 +136,7 @@ impl IoWrite for LimWriter {
                 let room = self.limit - self.acc.len();
                 let m = k.min(buf.len()).min(room);
                 if m == 0 {
-                    return if self.zero { Ok(0) } else { Err(io::Error::new(io::ErrorKind::Other, "sink full")) };
+                    return if self.zero { Ok(0) } else { Err(io::Error::new(io::ErrorKind::Other, SinkFull { at: self.limit })) };
                 }
                 self.acc.extend_from_slice(&buf[..m]);
                 Ok(m)
@@ -282,12 +314,7 @@ pub fn handle(st: &mut State, toks: &[&str]) -> HResult {
             let sched = parse_sched(sc)?;
             let mut w = LimWriter { acc: Vec::new(), limit: limit.min(1 << 40) as usize, zero, sched, i: 0 };
             let r = b.serialize_into(&mut w);
-            Some(format!(
-                "{} n={} sh={:016x}",
-                if r.is_ok() { "ok" } else { "err" },
-                w.acc.len(),
-                fnv_bytes(&w.acc)
-            ))
+            Some(format!("{} n={} sh={:016x}", show_write_result(&r, &w), w.acc.len(), fnv_bytes(&w.acc)))
         }
         ["inter_ser", d, l, h] => {
             let i = slot('b', d)?;
